@@ -1886,6 +1886,21 @@ class Evaluator:
                 return AV('list', items=tuple(const_av(x) for x in recv.val.split(sep_.val if sep_ is not None else None)))
             if recv.kind == 'str' and isinstance(recv.val, str) and f.attr in ('upper', 'lower', 'strip', 'lstrip', 'rstrip') and not node.args:
                 return const_av(getattr(recv.val, f.attr)())
+            if recv.kind == 'regex' and f.attr in ('findall', 'match', 'fullmatch', 'search', 'finditer') and 2 <= len(node.args) <= 3:
+                # <compiled pattern>.search(text, pos[, endpos])
+                import re as _re
+                vs_ = self._args(node, env)
+                if not isinstance(vs_[0].val, str) or not all(isinstance(v_.val, int) and not isinstance(v_.val, bool) for v_ in vs_[1:]):
+                    if vs_[0].kind != 'str':
+                        raise AbsRaise('TypeError', 'expected string or bytes-like object')
+                    raise Unknown('a regex call on values without a concrete carrier')
+                rx_ = _re.compile(recv.val[1], recv.val[2])
+                r_ = getattr(rx_, f.attr)(vs_[0].val, *[v_.val for v_ in vs_[1:]])
+                if f.attr == 'findall':
+                    return self._from_python(r_)
+                if f.attr == 'finditer':
+                    return AV('list', items=tuple(AV('other', val=('match', f.attr, m_)) for m_ in r_))
+                return AV('other', val=('match', f.attr, r_)) if r_ else AV('none')
             if recv.kind == 'regex' and f.attr in ('findall', 'match', 'fullmatch', 'search', 'sub', 'split', 'finditer') and node.args:
                 return self._regex_call(f.attr, recv.val[1], recv.val[2], [self.ev(x, env) for x in node.args])
             if recv.kind == 'regex' and f.attr == 'pattern':
